@@ -93,9 +93,15 @@ type ContractSet struct {
 	Lemmas []*Lemma
 	Errors []string
 	Trust  []string // trusted / assumed items for the evidence scan
+	GlobalInvs []GlobalInv // assumed facts about package-level variables (set at initialisation, never reassigned)
 	LockLevels map[string]int // Held.<Struct>.<field> -> level
 	LongTerm   map[string]bool // lock classes held across calls by design: entry-held instances are outside the rank check
 	Guarded    map[string]guardDecl // H.<Struct>.<field> -> guarding lock
+}
+
+type GlobalInv struct {
+	PkgPath string
+	C       Clause
 }
 
 type guardDecl struct {
@@ -297,6 +303,11 @@ func (cs *ContractSet) ParseContractText(file, pkgPath, pkgName, text string) {
 				continue
 			}
 			cs.LockLevels[lockKeyOfDecl(pkgName+"."+f[0])] = n
+		case "globalinv":
+			if c, ok := mkClause(rest); ok {
+				cs.GlobalInvs = append(cs.GlobalInvs, GlobalInv{PkgPath: pkgPath, C: c})
+				cs.Trust = append(cs.Trust, fmt.Sprintf("assumed package-level invariant (%s): %s", pkgPath, rest))
+			}
 		case "longterm":
 			f := strings.Fields(rest)
 			if len(f) == 0 {
